@@ -219,7 +219,7 @@ class C13(Prop):
                   'installable; Python 3.12 result-event timing (errors reported as they happen).')
     rule = ('Hypothesis worlds: 1..3 layers all with per-test hooks (probe points), 1..2 modules, up to 5 tests per '
             'case of every outcome kind, 75% of the tests write 1..3 unique tokens; --buffer on (3/4) or off, -v 0..3, '
-            '--repeat, --shuffle. Non-trivial = --buffer AND (a failing and a non-failing test with output are '
+            '--repeat, --shuffle, --xml (1/4), with --buffer 1/6 of the tests use a fixture that saves/restores or leaks the std streams. Non-trivial = --buffer AND (a failing and a non-failing test with output are '
             'neighbours, or a test with output reports >=2 results). Distinct by hash of (spec, options).')
     assumptions = ('a token is "attributed" when the nearest preceding report header names its test and no layer '
                    'summary lies in between', 'output written after a test\'s first reported result is still that '
